@@ -27,98 +27,101 @@ EXTENDS Compound, TraceKit
 VARIABLE l
 
 Tagged(s, tag) == {c \o ":" \o tag : c \in s}
-Guard(indom, raised, fails) == IF raised # "" THEN (IF indom THEN {"raised"} ELSE {}) ELSE fails
+\* an exception inside the documented domain is a failure (indom is evaluated only then)
+Guard(indom, raised, fails) == IF raised = "" THEN fails ELSE IF indom THEN {"raised"} ELSE {}
 Each(rs, V(_)) == UNION {Tagged(V(rs[k]), rs[k].v) : k \in 1..Len(rs)}
-
-NextV(e) ==
-  LET f == FmtOf(e.fmt)
-      V(c) == Guard(NextDomain(f, e.x, c.up), c.raised, NextFails(f, e.x, c.up, c.r))
-  IN  Each(e.rs, V)
-Pow2V(e) ==
-  LET f == FmtOf(e.fmt)
-      V(c) == Guard(Pow2Domain(f, e.x), c.raised, Pow2Fails(f, e.x, c.inv, c.b))
-  IN  Each(e.rs, V)
-Sum3V(e) ==
-  LET f == FmtOf(e.fmt)
-  IN  Guard(QuarterDomain(f, <<e.x, e.y, e.z>>), e.raised, Sum3Fails(f, e.x, e.y, e.z, e.s, e.e, e.t))
-Sum4V(e) ==
-  LET f == FmtOf(e.fmt)
-  IN  Guard(QuarterDomain(f, <<e.x, e.y, e.z, e.w>>), e.raised, Sum4Fails(f, e.x, e.y, e.z, e.w, e.r))
-MulAddV(e) ==
-  LET f == FmtOf(e.fmt)
-  IN  Guard(MulAddDomain(f, e.x, e.y, e.z), e.raised, MulAddFails(f, e.x, e.y, e.z, e.r))
-Dot2V(e) ==
-  LET f == FmtOf(e.fmt)
-  IN  Guard(Dot2Domain(f, e.x, e.y, e.z, e.w), e.raised, Dot2Fails(f, e.x, e.y, e.z, e.w, e.r))
-FmaV(e) ==
-  LET f == FmtOf(e.fmt)
-      fin == AllFinite(f, <<e.x, e.y, e.z>>)
-      rn == RN(f, FMAExact(f, e.x, e.y, e.z))
-      dom == fin /\ IsFinite(f, RN(f, DMul(Val(f, e.x), Val(f, e.y)))) /\ IsFinite(f, rn)
-      V(c) == Guard(dom, c.raised, FmaFailsC(f, e.x, e.y, e.z, dom, rn, c.r, c.fo))
-  IN  Each(e.rs, V)
-
-Fails(e) ==
-  CASE e.kind = "next" -> NextV(e)
-    [] e.kind = "pow2" -> Pow2V(e)
-    [] e.kind = "sum3" -> Sum3V(e)
-    [] e.kind = "sum4" -> Sum4V(e)
-    [] e.kind = "muladd" -> MulAddV(e)
-    [] e.kind = "dot2" -> Dot2V(e)
-    [] e.kind = "fma" -> FmaV(e)
-
-(* statistics (never verdicts): in / out of the documented domain, class of the exact result,   *)
-(* lattice distance of the result from RN(exact) as d0 .. d9 (capped) or d99 (not finite);      *)
-(* for kinds with several results the largest distance                                          *)
 DLabel(n) == "d" \o ToString(n)
 RECURSIVE MaxOf(_)
 MaxOf(s) == IF s = <<>> THEN 0 ELSE Max(Head(s), MaxOf(Tail(s)))
-Stats(e) ==
+InOut(b) == IF b THEN {"in"} ELSE {"out"}
+
+(* Each verdict is [fails |-> violated clauses, notes |-> statistics]; notes are computed only when   *)
+(* want = TRUE: in / out of the documented domain, class of the exact result (Compound!ResClass), and *)
+(* the lattice distance of the result from RN(exact) as d0 .. d9 (capped) or d99 (not finite); for    *)
+(* kinds with several results the largest distance.  Statistics are never verdicts.                   *)
+NextV(e, want) ==
   LET f == FmtOf(e.fmt)
-  IN
-  CASE e.kind = "next" ->
-         (IF NextDomain(f, e.x, TRUE) \/ NextDomain(f, e.x, FALSE) THEN {"in"} ELSE {"out"})
-    [] e.kind = "pow2" ->
-         (IF Pow2Domain(f, e.x) THEN {"in"} ELSE {"out"})
-         \cup (IF SigIsPow2(f, e.x) THEN {"ispow2"} ELSE {})
-         \cup (IF \E k \in 1..Len(e.rs) : e.rs[k].raised = "" /\ Pow2BelowDoc(f, e.x, e.rs[k].inv, e.rs[k].b)
-               THEN {"pow2_below_doc_window"} ELSE {})
-    [] e.kind = "sum3" ->
-         IF ~QuarterDomain(f, <<e.x, e.y, e.z>>) \/ e.raised # "" THEN {"out"}
-         ELSE LET t == <<Val(f, e.x), Val(f, e.y), Val(f, e.z)>>
-                  d == DSum(t)
-              IN  {"in", DLabel(IF AllFinite(f, <<e.s, e.e, e.t>>)
-                                THEN DistCap(f, FAdd(f, e.s, FAdd(f, e.e, e.t)), d) ELSE 99)}
-                  \cup ResClass(f, d, t)
-    [] e.kind = "sum4" ->
-         IF ~QuarterDomain(f, <<e.x, e.y, e.z, e.w>>) \/ e.raised # "" THEN {"out"}
-         ELSE LET t == <<Val(f, e.x), Val(f, e.y), Val(f, e.z), Val(f, e.w)>>
-                  d == DSum(t)
-              IN  {"in", DLabel(DistCap(f, e.r, d))} \cup ResClass(f, d, t)
-    [] e.kind = "muladd" ->
-         IF ~MulAddDomain(f, e.x, e.y, e.z) \/ e.raised # "" THEN {"out"}
-         ELSE LET t == <<DMul(Val(f, e.x), Val(f, e.y)), Val(f, e.z)>>
-                  d == DSum(t)
-              IN  {"in", DLabel(DistCap(f, e.r, d))} \cup ResClass(f, d, t)
-    [] e.kind = "dot2" ->
-         IF ~Dot2Domain(f, e.x, e.y, e.z, e.w) \/ e.raised # "" THEN {"out"}
-         ELSE LET t == <<DMul(Val(f, e.x), Val(f, e.y)), DMul(Val(f, e.z), Val(f, e.w))>>
-                  d == DSum(t)
-              IN  {"in", DLabel(DistCap(f, e.r, d))} \cup ResClass(f, d, t)
-    [] e.kind = "fma" ->
-         IF ~FmaDomain(f, e.x, e.y, e.z) THEN {"out"}
-         ELSE LET t == <<DMul(Val(f, e.x), Val(f, e.y)), Val(f, e.z)>>
-                  d == DSum(t)
-                  ds == [k \in 1..Len(e.rs) |-> IF e.rs[k].raised # "" THEN 99 ELSE DistCap(f, e.rs[k].r, d)] \o <<>>
-              IN  {"in", DLabel(MaxOf(ds))} \cup ResClass(f, d, t)
-                  \cup (IF ProdTop(f, e.x, e.y) THEN {"prodtop"} ELSE {})
-                  \cup (IF NearOverflow(f, e.x, e.y, e.z) THEN {"nearoverflow"} ELSE {})
+      x == e.x
+      nu == NextUp(f, x)
+      nd == NextDown(f, x)
+      normal == IsNormal(f, x)
+      du == normal /\ IsNormal(f, nu)
+      dd == normal /\ IsNormal(f, nd)
+      V(c) == LET dom == IF c.up THEN du ELSE dd
+              IN  Guard(dom, c.raised, NextFailsC(dom, IF c.up THEN nu ELSE nd, c.r))
+  IN  [fails |-> Each(e.rs, V), notes |-> IF want THEN InOut(du \/ dd) ELSE {}]
+Pow2V(e, want) ==
+  LET f == FmtOf(e.fmt)
+      dom == Pow2Domain(f, e.x)
+      isp == SigIsPow2(f, e.x)
+      V(c) == Guard(dom, c.raised, Pow2FailsC(dom, isp, c.inv, c.b))
+      below == Pow2BelowDoc(f, e.x) /\ \E k \in 1..Len(e.rs) : e.rs[k].raised = "" /\ e.rs[k].b # (isp # e.rs[k].inv)
+  IN  [fails |-> Each(e.rs, V),
+       notes |-> IF want THEN InOut(dom) \cup (IF isp THEN {"ispow2"} ELSE {})
+                              \cup (IF below THEN {"pow2_below_doc_window"} ELSE {})
+                 ELSE {}]
+\* statistics of a result r (distance label) for the exact value DSum(terms) inside the domain
+SumStats(f, terms, r, finite) ==
+  LET d == DSum(terms)
+      rn == RN(f, d)
+  IN  {"in", DLabel(IF finite THEN DistCapR(f, r, rn) ELSE 99)} \cup ResClass(f, d, rn, terms)
+Sum3V(e, want) ==
+  LET f == FmtOf(e.fmt)
+      dom == QuarterDomain(f, <<e.x, e.y, e.z>>)
+      fin == AllFinite(f, <<e.s, e.e, e.t>>)
+  IN  [fails |-> Guard(dom, e.raised, Sum3Fails(f, e.x, e.y, e.z, e.s, e.e, e.t)),
+       notes |-> IF ~want THEN {} ELSE IF ~dom \/ e.raised # "" THEN {"out"}
+                 ELSE SumStats(f, <<Val(f, e.x), Val(f, e.y), Val(f, e.z)>>,
+                               IF fin THEN FAdd(f, e.s, FAdd(f, e.e, e.t)) ELSE <<>>, fin)]
+Sum4V(e, want) ==
+  LET f == FmtOf(e.fmt)
+      dom == QuarterDomain(f, <<e.x, e.y, e.z, e.w>>)
+  IN  [fails |-> Guard(dom, e.raised, Sum4Fails(f, e.x, e.y, e.z, e.w, e.r)),
+       notes |-> IF ~want THEN {} ELSE IF ~dom \/ e.raised # "" THEN {"out"}
+                 ELSE SumStats(f, <<Val(f, e.x), Val(f, e.y), Val(f, e.z), Val(f, e.w)>>, e.r, TRUE)]
+MulAddV(e, want) ==
+  LET f == FmtOf(e.fmt)
+      dom == MulAddDomain(f, e.x, e.y, e.z)
+  IN  [fails |-> Guard(dom, e.raised, MulAddFails(f, e.x, e.y, e.z, e.r)),
+       notes |-> IF ~want THEN {} ELSE IF ~dom \/ e.raised # "" THEN {"out"}
+                 ELSE SumStats(f, <<DMul(Val(f, e.x), Val(f, e.y)), Val(f, e.z)>>, e.r, TRUE)]
+Dot2V(e, want) ==
+  LET f == FmtOf(e.fmt)
+      dom == Dot2Domain(f, e.x, e.y, e.z, e.w)
+  IN  [fails |-> Guard(dom, e.raised, Dot2Fails(f, e.x, e.y, e.z, e.w, e.r)),
+       notes |-> IF ~want THEN {} ELSE IF ~dom \/ e.raised # "" THEN {"out"}
+                 ELSE SumStats(f, <<DMul(Val(f, e.x), Val(f, e.y)), DMul(Val(f, e.z), Val(f, e.w))>>, e.r, TRUE)]
+FmaV(e, want) ==
+  LET f == FmtOf(e.fmt)
+      fin == AllFinite(f, <<e.x, e.y, e.z>>)
+      prod == DMul(Val(f, e.x), Val(f, e.y))
+      terms == <<prod, Val(f, e.z)>>
+      d == DSum(terms)
+      rn == RN(f, d)
+      dom == fin /\ IsFinite(f, RN(f, prod)) /\ IsFinite(f, rn)
+      V(c) == Guard(dom, c.raised, FmaFailsC(f, e.x, e.y, e.z, dom, rn, c.r, c.fo))
+      ds == [k \in 1..Len(e.rs) |-> IF e.rs[k].raised # "" THEN 99 ELSE DistCapR(f, e.rs[k].r, rn)] \o <<>>
+  IN  [fails |-> Each(e.rs, V),
+       notes |-> IF ~want THEN {} ELSE IF ~dom THEN {"out"}
+                 ELSE {"in", DLabel(MaxOf(ds))} \cup ResClass(f, d, rn, terms)
+                      \cup (IF ProdTop(f, e.x, e.y) THEN {"prodtop"} ELSE {})
+                      \cup (IF ResTop(f, e.x, e.y, e.z) THEN {"restop"} ELSE {})]
+
+Verdict(e, want) ==
+  CASE e.kind = "next" -> NextV(e, want)
+    [] e.kind = "pow2" -> Pow2V(e, want)
+    [] e.kind = "sum3" -> Sum3V(e, want)
+    [] e.kind = "sum4" -> Sum4V(e, want)
+    [] e.kind = "muladd" -> MulAddV(e, want)
+    [] e.kind = "dot2" -> Dot2V(e, want)
+    [] e.kind = "fma" -> FmaV(e, want)
 
 Init == l = 1
 Next == /\ l <= Len(Trace)
         /\ LET e == Trace[l]
-           IN  /\ Report(e, Fails(e))
-               /\ (IF Has(e, "cls") /\ e.cls THEN PrintT(<<"NOTE", e.id, Stats(e)>>) ELSE TRUE)
+               v == Verdict(e, Has(e, "cls") /\ e.cls)
+           IN  /\ Report(e, v.fails)
+               /\ (IF v.notes = {} THEN TRUE ELSE PrintT(<<"NOTE", e.id, v.notes>>))
         /\ l' = l + 1
 Spec == Init /\ [][Next]_l
 =============================================================================
